@@ -9,6 +9,24 @@ ROOT = os.path.dirname(os.path.dirname(os.path.abspath(__file__)))
 
 # id -> (technique, level text, level note, design ref)
 CHECKS = {
+    'C01': (
+        'Hypothesis-generated parse histories and thread schedules (harness-'
+        'owned cooperative scheduler at token-fetch granularity, exhaustive '
+        'DFS for short text pairs) + free-running threads; differential '
+        'against a fresh engine per text',
+        'Generated-input search over (texts, order, thread assignment, '
+        'schedule). Sequential histories incl. failed parses and '
+        'near-duplicate texts on one long-lived engine; every token-fetch '
+        'interleaving of pairs of short texts enumerated by stateless DFS; '
+        'Hypothesis-drawn schedules for 2-3 threads and longer texts; '
+        'free-running threads at 1 us switch interval incl. yaql.eval. '
+        'Oracle: outcome (tree S-expression or exception class/position/'
+        'value/message) equals that of an engine used for nothing else. '
+        'Bounded, probabilistic for races inside one token() call.',
+        'reference engine = own ply lexer clone + shallow LRParser copy + '
+        'own YaqlEngine over the read-only tables of a pristine template '
+        '(validated per run against factory-fresh engines on the text pool); '
+        'scheduling points are token fetches', 'DESIGN.md section 2, C01'),
     'C03': (
         'exhaustive short token sequences + Hypothesis token soups / '
         'mutations / unicode text against a validity predicate',
